@@ -28,6 +28,8 @@ class FakeSock(object):
         self.open = True
         self.world = world
         self.recv_limit = None    # max octets per recv (harness-controlled chunking)
+        self.recv_policy = 'all'  # 'all': everything pending; 'msg': one message per read
+        self.seen_contact = False
         self.send_limit = None    # max octets accepted per send (back-pressure)
 
     def setblocking(self, b):
@@ -48,6 +50,20 @@ class FakeSock(object):
                 return b''
             raise BlockingIOError('would block')
         lim = n
+        if self.recv_policy == 'msg':
+            # one protocol message (or the contact header) per read, found by the independent decoder
+            from .oracle import rfc9174
+            rd = rfc9174.Rd(self.rx.buf)
+            try:
+                if not self.seen_contact:
+                    rfc9174.decode_contact(rd)
+                    self.seen_contact = True
+                else:
+                    rfc9174.decode_message(rd)
+                if bool(rd.used < lim):
+                    lim = rd.used
+            except (rfc9174.Incomplete, rfc9174.Malformed):
+                pass
         if self.recv_limit is not None:
             rl = self.recv_limit(self, have) if callable(self.recv_limit) else self.recv_limit
             if bool(rl < lim):
